@@ -321,6 +321,7 @@ def enc (w : EW) (fmt : Fmt) : Obj → Bool
        | .msgspec, .deque => false
        | .msgspec, _ => true) && encL w fmt xs
   | .dict kvs => encKV w fmt kvs
+  | .mdict _ _ => false        -- dict subclasses of the core data path (`Obj.mdict`) do not occur in the Preconf worlds
   | .inst _ fs => fmt == .msgspec && encF w fmt fs
 termination_by structural x => x
 def encL (w : EW) (fmt : Fmt) : List Obj → Bool
